@@ -53,7 +53,7 @@ def main(argv=None):
     except ValueError:
         seed = 0
     from . import target, core, evidence, findings
-    t0 = time.time()
+    t0 = target.clock.real()
     try:
         target.lib()
     except Exception:
@@ -62,7 +62,7 @@ def main(argv=None):
         return 2
     mod = importlib.import_module("mc.props." + prop.lower())
     acc = mod.run(a.tier, seed)
-    wall = time.time() - t0
+    wall = target.clock.real() - t0
     known = findings.known_for(prop)
     nviol = 0
     lines = []
